@@ -473,6 +473,9 @@ class Grid:
             A metric which can broadcast against ``array``
         """
 
+        # a single axis may be given as a plain string
+        axes = _maybe_promote_str_to_list(axes)
+
         metric_vars = None
         array_dims = set(array.dims)
 
